@@ -144,6 +144,11 @@ type handler struct{ w *world }
 func (h *handler) Init(*app.App) error { return nil }
 func (h *handler) Name() string        { return "h" }
 func (h *handler) OpenStream(ctx context.Context, p peer.Peer) (drpc.Stream, []string, int, error) {
+	if strings.HasPrefix(p.Id(), "pstuck") {
+		// a dial to a stuck peer: it never completes (until the harness tears the world down)
+		h.w.ctl.PointIf("dial-stuck:"+p.Id(), func() bool { return h.w.cleanup })
+		return nil, nil, 0, errSend
+	}
 	// a dial: the new stream is healthy
 	h.w.ctl.Point("dial:" + p.Id())
 	s := h.w.newStream("d-"+p.Id(), p.Id(), healthy, 2)
@@ -563,6 +568,10 @@ func scenarios(c *vk.Ctx) (out []scenario) {
 			scenario{[]streamSpec{H(q)}, []opSpec{{"send", "pn", 1}, {"send", "pn", 1}, {"sendid", "pn", 1}}},
 			scenario{[]streamSpec{H(q), F(q)}, []opSpec{{"rmtagid", "f", 1}, {"bcast", "t1", 2}, {"addstream", "pf", 1}}},
 			scenario{[]streamSpec{H(q), F(q)}, []opSpec{{"bcast", "t1", 1}, {"peerclose", "f", 1}}},
+			// a dial that never completes occupies the only dial worker and the dial queue fills up: Send must still
+			// return to its caller (1 worker, queue of 1: the third pending Send finds the queue full)
+			scenario{[]streamSpec{H(q)}, []opSpec{{"send", "pstuck", 1}, {"send", "ph", 3}, {"bcast", "t1", 1}}},
+			scenario{[]streamSpec{H(q)}, []opSpec{{"send", "pstuck", 2}, {"send", "pstuck2", 2}, {"sendid", "ph", 1}}},
 			scenario{[]streamSpec{H(q), S(q)}, []opSpec{{"addtag", "s", 1}, {"bcast2", "t1,t2", 2}, {"addtag", "h", 1}}},
 		)
 	}
